@@ -41,6 +41,7 @@ Definition s_step (s : smap N) (o : fm_op) : smap N * fm_out :=
   | FAtIndexC i => (s, match nth_error (s_order s) (N.to_nat i) with
                        | Some k => match s_val s k with Some v => OItem k v | None => OThrow end
                        | None => OThrow end)
+  | FCopy => (s, OUnit)
   end.
 
 Definition abs (m : fm) : smap N := {| s_order := map fst m; s_val := fm_lookup m |}.
@@ -204,6 +205,7 @@ Proof.
   - split; [|auto]. rewrite nth_error_map.
     destruct (nth_error m (N.to_nat i)) as [[k v]|] eqn:E; simpl; [|reflexivity].
     apply nth_error_In in E. now rewrite (in_nodup_lookup m k v ND E).
+  - auto.
 Qed.
 
 (* every operation through a const member leaves the map as it was *)
@@ -603,4 +605,45 @@ Lemma fm_set_then_read m k v :
   snd (fm_step m' (FAt k)) = OVal v /\ snd (fm_step m' (FIndex k)) = OVal v /\ snd (fm_step m' (FAtC k)) = OVal v.
 Proof.
   intros ND m'. pose proof (fm_set_exact m k v ND) as L. fold m' in L. cbn [fm_step snd]. rewrite L. auto.
+Qed.
+
+(* ---- two objects after a copy *)
+Lemma h_upd_nth h : forall i f p, nth_error h i = Some p -> nth_error (h_upd h i f) i = Some (f p).
+Proof. induction h as [|x r IH]; intros [|i] f p H; cbn in *; try discriminate; [congruence|auto]. Qed.
+
+Lemma find_ix_some h l n i : find_ix h l n = Some i -> exists p, nth_error h i = Some p /\ p_name p = n.
+Proof.
+  induction l as [|j r IH]; cbn; [discriminate|].
+  destruct (nth_error h j) as [p|] eqn:E; [|exact IH].
+  destruct (N.eqb_spec (p_name p) n) as [En|En]; [|exact IH].
+  intro H. injection H as <-. eauto.
+Qed.
+
+(* a copy SHARES the parameters it was made from: setParam through one object on a name that existed at the
+   time of the copy is seen through the other (same Param object, found at the same place of its own list) *)
+Lemma obj_set_existing h l n form v i :
+  find_ix h l n = Some i ->
+  let '(h', l', _) := obj_step h l (PSet n form v) in
+  l' = l /\ option_map p_data (nth_error h' i) = Some (store_of form v).
+Proof.
+  intro H. cbn [obj_step]. rewrite H. split; [reflexivity|].
+  destruct (find_ix_some h l n i H) as [p [Hp _]]. rewrite (h_upd_nth h i _ p Hp). reflexivity.
+Qed.
+
+Lemma po2_copy_shares s n form v i :
+  find_ix (p2_h s) (p2_a s) n = Some i ->
+  let s1 := fst (po2_step s QCopyAB) in
+  let s2 := fst (po2_step s1 (QB (PSet n form v))) in
+  p2_a s2 = p2_a s /\ option_map p_data (nth_error (p2_h s2) i) = Some (store_of form v).
+Proof.
+  intros H s1 s2. subst s1 s2. cbn [po2_step fst p2_h p2_a p2_b].
+  pose proof (obj_set_existing (p2_h s) (p2_a s) n form v i H) as L.
+  destruct (obj_step (p2_h s) (p2_a s) (PSet n form v)) as [[h' l'] out]. cbn. destruct L as [_ L]. auto.
+Qed.
+
+(* ... but its list of parameters is its own: nothing done through b adds, removes or reorders a's parameters *)
+Lemma po2_lists_independent s o : p2_a (fst (po2_step s (QB o))) = p2_a s /\ p2_b (fst (po2_step s (QA o))) = p2_b s.
+Proof.
+  cbn [po2_step]. destruct (obj_step (p2_h s) (p2_b s) o) as [[h l] out]. destruct (obj_step (p2_h s) (p2_a s) o) as [[h2 l2] out2].
+  split; reflexivity.
 Qed.
